@@ -103,8 +103,7 @@ Section NLE.
       else let w := w_v w (upd (wv w) i (svadd O (st_apply O (gXl O w i) (gv O w lam)) (gvJ O w i))) in
            let w := w_c w (upd (wc w) i (svadd O (gcJ O w i) (crossm O (gv O w i) (gvJ O w i)))) in
            w_a w (upd (wa w) i (svadd O (st_apply O (gXl O w i) (ga O w lam)) (gc O w i))) in
-    if bvirtual (getbody O M i) then w_f w (upd (wf w) i (svzero O))
-    else w_f w (upd (wf w) i (body_force O M w i)).
+    w_f w (upd (wf w) i (if bvirtual (getbody O M i) then svzero O else body_force O M w i)).
 
   Definition nle_init (w : WS) : WS :=
     let w := w_v w (upd (wv w) 0 (svzero O)) in w_a w (upd (wa w) 0 (grav_sv O M false)).
@@ -195,10 +194,7 @@ Section NLE.
     assert (Ef : fv = fI i).
     { unfold fv, DynThm.fI. destruct (bvirtual (getbody O M i)); [reflexivity|].
       unfold body_force. rewrite Ea, Ev. reflexivity. }
-    assert (R : (if bvirtual (getbody O M i) then w_f wk (upd (wf wk) i (svzero O)) else w_f wk (upd (wf wk) i (body_force O M wk i)))
-                = w_f wk (upd (wf wk) i fv)).
-    { unfold fv. destruct (bvirtual (getbody O M i)); reflexivity. }
-    rewrite R. clear R.
+    fold fv.
     split; [|split; [|split; [|split]]].
     - apply (good_ext O M wk); try reflexivity.
       + unfold ws_len; wsimp. rewrite !upd_length. repeat split; assumption.
